@@ -81,9 +81,9 @@ func (c *FnCtx) inspectSchema(st *State, call *ast.CallExpr, rootE ast.Expr, lit
 	c.smt.fun("sf_inspIn", []string{SInt, SInt}, SBool)
 	ev := mk("sf_inspEvents", evSort, root)
 	n := c.sliceLen(ev)
-	env := map[string]*Term{"$i": intLit(0), "$seq": ev, "$root": root, "$n": n}
-	c.checkInvs(st, ls, "inv-init", call, 0, env)
 	nodeT := c.typeOf(lit).(*types.Signature).Params().At(0).Type()
+	env := map[string]*Term{"$i": intLit(0), "$seq": ev.withGo(types.NewSlice(nodeT)), "$root": root, "$n": n}
+	c.checkInvs(st, ls, "inv-init", call, 0, env)
 	log := c.dryRun(st, func(s *State) {
 		c.runClosureBody(s, lit, []*Term{c.smt.freshConst("dry_n", SInt).withGo(nodeT)})
 	})
@@ -105,7 +105,7 @@ func (c *FnCtx) inspectSchema(st *State, call *ast.CallExpr, rootE ast.Expr, lit
 	b.pc = append(b.pc, mkLt(iv, n))
 	node := c.sliceAt(ev, iv)
 	b.pc = append(b.pc, mkOr(mkEq(node, intLit(0)), mk("sf_inspIn", SBool, node, root)))
-	env["$node"] = node
+	env["$node"] = node.withGo(nodeT)
 	c.smt.fun("sf_properAnc", []string{SInt, SInt}, SBool)
 	prunedAbove := func(s *State, n *Term) *Term {
 		// some proper ancestor of n inside the walked subtree is a node at which the closure returns false
@@ -156,8 +156,23 @@ func (c *FnCtx) inspectSchema(st *State, call *ast.CallExpr, rootE ast.Expr, lit
 		// every node of the subtree that is not below a pruning node is among the events
 		c.quantN++
 		nv := leaf(fmt.Sprintf("in!%d", c.quantN), SInt)
-		env["$node"] = nv
+		env["$node"] = nv.withGo(nodeT)
 		st.pc = append(st.pc, mkForall([]Bound{{nv.Op, SInt}}, mkImplies(mkAnd(mk("sf_inspIn", SBool, nv, root), mkNot(prunedAbove(st, nv))), c.seqContains(ev, nv)), []*Term{mk("sf_inspIn", SBool, nv, root)}))
+		// ... and a node that is skipped lies below a pruning node that was itself visited (the topmost one)
+		{
+			c.quantN++
+			nv2 := leaf(fmt.Sprintf("in!%d", c.quantN), SInt)
+			c.quantN++
+			av := leaf(fmt.Sprintf("anc!%d", c.quantN), SInt)
+			env3 := map[string]*Term{}
+			for k, v := range env {
+				env3[k] = v
+			}
+			env3["$node"] = av.withGo(nodeT)
+			pr := c.specEvalAt(st, ls.Prunes, env3, c.pre, call)
+			visitedPruner := mkExists([]Bound{{av.Op, SInt}}, mkAnd(c.seqContains(ev, av), mkNot(mkEq(av, intLit(0))), mk("sf_inspIn", SBool, av, root), mk("sf_properAnc", SBool, av, nv2), pr), []*Term{mk("sf_properAnc", SBool, av, nv2)})
+			st.pc = append(st.pc, mkForall([]Bound{{nv2.Op, SInt}}, mkImplies(mk("sf_inspIn", SBool, nv2, root), mkOr(c.seqContains(ev, nv2), visitedPruner)), []*Term{mk("sf_inspIn", SBool, nv2, root)}))
+		}
 	} else if alwaysTrue(lit) {
 		// the closure never prunes: every node of the subtree is among the events (assumed go/ast contract)
 		c.trustedUsed["schema: go/ast.Inspect with a function that always returns true visits every node of the subtree"] = true
